@@ -48,6 +48,20 @@ Definition pres_comp_is (r : pres comp) (c : comp) : bool :=
   match r with POk d => comp_eqb d c | _ => false end.
 Definition no_panic {A} (r : pres A) : bool := match r with PPanic => false | _ => true end.
 
+(* ---- hash input, layout-agnostic: sc, sd are the byte streams the implementation's HashInto fed for components c, d.
+   Whatever the layout, (a) the stream is a function of the component, (b) streams of different components are not
+   prefixes of one another (so concatenations of streams determine the name: SpecOk.layout_ok_names_injective), and a
+   stream is never empty. ---- *)
+Fixpoint is_prefixb (a b : bytes) : bool :=
+  match a, b with
+  | [], _ => true
+  | _, [] => false
+  | x :: a', y :: b' => (x =? y) && is_prefixb a' b'
+  end.
+Definition layout_pair_ok (c d : comp) (sc sd : bytes) : bool :=
+  negb (length sc =? 0)%nat && negb (length sd =? 0)%nat &&
+  (if comp_eqb c d then bytes_eqb sc sd else negb (is_prefixb sc sd) && negb (is_prefixb sd sc)).
+
 (* NameFromBytes(n.Bytes()) observed as r: encodings determine names *)
 Definition brt_ok (n : name) (r : option name) : bool :=
   match r with Some m => name_eqb m n | None => false end.
